@@ -44,9 +44,21 @@ fn library(dir: &Path) -> Vec<Diag> {
 }
 
 fn rva(exe: &Path, dir: &Path, flags: &[&str]) -> Result<String, String> {
-    let out = Command::new(exe).current_dir(dir).arg("lint").args(flags).arg("main.s").output().map_err(|e| format!("cannot run rva: {e}"))?;
-    if !out.status.success() { return Err(format!("rva lint {flags:?} exited with {:?}: {}", out.status.code(), String::from_utf8_lossy(&out.stderr).chars().take(300).collect::<String>())); }
-    Ok(String::from_utf8_lossy(&out.stdout).to_string())
+    use std::io::Read;
+    let mut child = Command::new(exe).current_dir(dir).arg("lint").args(flags).arg("main.s").stdout(std::process::Stdio::piped()).stderr(std::process::Stdio::piped())
+        .spawn().map_err(|e| format!("cannot run rva: {e}"))?;
+    // the output of these small inputs fits the pipe buffer: wait first (20 s), read afterwards
+    let t0 = std::time::Instant::now();
+    let status = loop {
+        match child.try_wait() { Ok(Some(st)) => break st, Ok(None) => {}, Err(e) => return Err(format!("cannot wait for rva: {e}")) }
+        if t0.elapsed().as_secs() >= 20 { let _ = child.kill(); let _ = child.wait(); return Err(format!("rva lint {flags:?} did not finish within 20 s")); }
+        std::thread::sleep(std::time::Duration::from_millis(5));
+    };
+    let (mut out, mut err) = (String::new(), String::new());
+    if let Some(mut o) = child.stdout.take() { let _ = o.read_to_string(&mut out); }
+    if let Some(mut e) = child.stderr.take() { let _ = e.read_to_string(&mut err); }
+    if !status.success() { return Err(format!("rva lint {flags:?} exited with {:?}: {}", status.code(), err.chars().take(300).collect::<String>())); }
+    Ok(out)
 }
 
 fn parse_json(text: &str) -> Result<Vec<Diag>, String> {
@@ -172,6 +184,10 @@ fn cases() -> Vec<Vec<(&'static str, &'static str)>> {
         vec![("main.s", "    li t0, 1\nmain:\n    addi x0, t0, 1\n    li a7, 10\n    ecall\n    li t1, 2\n")],
         vec![("main.s", "main:\n    j nowhere\n    j elsewhere\n    j third\n    li a7, 10\n    ecall\n")],
         vec![("main.s", "main:\n    addi a0, a0, foo:\n    li a7, 10\n    ecall\n")],
+        // include graphs: a file that includes itself, a cycle of two files, undefined labels in two files
+        vec![("main.s", ".include \"main.s\"\nmain:\n    li a7, 10\n    ecall\n")],
+        vec![("main.s", ".include \"lib.s\"\nmain:\n    li a7, 10\n    ecall\n"), ("lib.s", ".include \"main.s\"\nhelper:\n    ret\n")],
+        vec![("main.s", "main:\n    jal foo\n    li a7, 10\n    ecall\n.include \"lib.s\"\n"), ("lib.s", "helper:\n    jal bar\n    ret\n")],
         vec![("main.s", "main:\n    li a7, 77\n    ecall\n    addi sp, sp, 4\n    sw a0, 0(sp)\n    li a7, 10\n    ecall\n")],
     ]
 }
